@@ -112,8 +112,14 @@ impl<S> Rec<S> {
     }
 }
 
+/// `C37_DEBUG=1`: trace storage calls / RPCs to stderr and let panics of Raft tasks print (debugging aid only)
+fn debug_on() -> bool {
+    static ON: std::sync::OnceLock<bool> = std::sync::OnceLock::new();
+    *ON.get_or_init(|| std::env::var("C37_DEBUG").is_ok())
+}
+
 fn dbg(node: u64, msg: String) {
-    if std::env::var("C37_DEBUG").is_ok() {
+    if debug_on() {
         eprintln!("DBG {:?} node {node}: {msg}", std::thread::current().id());
     }
 }
@@ -128,7 +134,9 @@ impl<R: RaftLogReader<TypeConfig>> RaftLogReader<TypeConfig> for RecReader<R> {
     async fn try_get_log_entries<RB: RangeBounds<u64> + Clone + Debug + Send>(&mut self, range: RB) -> Result<Vec<Entry<TypeConfig>>, StorageError<NodeId>> {
         let r = self.inner.try_get_log_entries(range.clone()).await?;
         if r.is_empty() {
-            dbg(self.node, format!("log reader: range {range:?} returned no entries"));
+            if debug_on() {
+                dbg(self.node, format!("log reader: range {range:?} returned no entries"));
+            }
         }
         Ok(r)
     }
@@ -172,18 +180,24 @@ impl<S: RaftStorage<TypeConfig>> RaftStorage<TypeConfig> for Rec<S> {
         if perturb("store-append-drops-last-of-batch") && v.len() >= 2 {
             v.pop();
         }
-        dbg(self.node, format!("append {:?}..{:?}", v.first().map(|e| e.log_id.to_string()), v.last().map(|e| e.log_id.to_string())));
+        if debug_on() {
+            dbg(self.node, format!("append {:?}..{:?}", v.first().map(|e| e.log_id.to_string()), v.last().map(|e| e.log_id.to_string())));
+        }
         self.inner.append_to_log(v).await
     }
     async fn delete_conflict_logs_since(&mut self, log_id: LogId<NodeId>) -> Result<(), StorageError<NodeId>> {
         self.rec.lock().unwrap().conflict_deletes += 1;
-        dbg(self.node, format!("delete_conflict_logs_since {log_id}"));
+        if debug_on() {
+            dbg(self.node, format!("delete_conflict_logs_since {log_id}"));
+        }
         let log_id = if perturb("store-delete-conflict-off-by-one") { LogId::new(log_id.leader_id, log_id.index + 1) } else { log_id };
         self.inner.delete_conflict_logs_since(log_id).await
     }
     async fn purge_logs_upto(&mut self, log_id: LogId<NodeId>) -> Result<(), StorageError<NodeId>> {
         self.rec.lock().unwrap().purges += 1;
-        dbg(self.node, format!("purge_logs_upto {log_id}"));
+        if debug_on() {
+            dbg(self.node, format!("purge_logs_upto {log_id}"));
+        }
         self.inner.purge_logs_upto(log_id).await
     }
     async fn last_applied_state(&mut self) -> Result<(Option<LogId<NodeId>>, StoredMembership<NodeId, RaftNode>), StorageError<NodeId>> {
@@ -223,7 +237,9 @@ impl<S: RaftStorage<TypeConfig>> RaftStorage<TypeConfig> for Rec<S> {
     }
     async fn install_snapshot(&mut self, meta: &SnapshotMeta<NodeId, RaftNode>, snapshot: Box<Cursor<Vec<u8>>>) -> Result<(), StorageError<NodeId>> {
         self.inner.install_snapshot(meta, snapshot).await?;
-        dbg(self.node, format!("install_snapshot {:?}", meta.last_log_id.map(|l| l.to_string())));
+        if debug_on() {
+            dbg(self.node, format!("install_snapshot {:?}", meta.last_log_id.map(|l| l.to_string())));
+        }
         self.rec.lock().unwrap().snapshots_installed += 1;
         if let Some(l) = meta.last_log_id {
             self.observe(l.index, "install_snapshot");
@@ -233,7 +249,9 @@ impl<S: RaftStorage<TypeConfig>> RaftStorage<TypeConfig> for Rec<S> {
     async fn get_current_snapshot(&mut self) -> Result<Option<Snapshot<TypeConfig>>, StorageError<NodeId>> {
         let r = self.inner.get_current_snapshot().await;
         if let Ok(Some(s)) = &r {
-            dbg(self.node, format!("get_current_snapshot -> {:?}", s.meta.last_log_id.map(|l| l.to_string())));
+            if debug_on() {
+                dbg(self.node, format!("get_current_snapshot -> {:?}", s.meta.last_log_id.map(|l| l.to_string())));
+            }
         }
         r
     }
@@ -284,7 +302,7 @@ impl Net {
         Fate::Deliver(0)
     }
     fn note(&mut self, s: String) {
-        if std::env::var("C37_DEBUG").is_ok() {
+        if debug_on() {
             let t = self.t0.map(|t| t.elapsed().as_millis()).unwrap_or(0);
             self.trace.push_back(format!("{t} {s}"));
             if self.trace.len() > 120 {
@@ -350,15 +368,19 @@ macro_rules! rpc {
             return Err(RPCError::Unreachable(unreachable_err("connection refused: node is down")));
         };
         // routes.rs: any error of the Raft call becomes HTTP 500, which network.rs maps to Unreachable
-        let summary = format!("{} {}->{} {}", stringify!($method), $self.src, $self.dst, $rpc.summary());
+        let summary = if debug_on() { format!("{} {}->{} {}", stringify!($method), $self.src, $self.dst, $rpc.summary()) } else { String::new() };
         let resp = match target.$method($rpc).await {
             Ok(r) => r,
             Err(e) => {
-                $self.net.lock().unwrap().note(format!("{summary} => ERR {e}"));
+                if debug_on() {
+                    $self.net.lock().unwrap().note(format!("{summary} => ERR {e}"));
+                }
                 return Err(RPCError::Unreachable(unreachable_err(&format!("HTTP 500: {e}"))));
             }
         };
-        $self.net.lock().unwrap().note(format!("{summary} => {}", format!("{resp:?}").chars().take(160).collect::<String>()));
+        if debug_on() {
+            $self.net.lock().unwrap().note(format!("{summary} => {}", format!("{resp:?}").chars().take(160).collect::<String>()));
+        }
         let back = {
             let mut n = $self.net.lock().unwrap();
             let f = n.fate($self.dst, $self.src);
@@ -1007,9 +1029,11 @@ fn check_history(kind: Kind, profile: Profile, h: &HistoryResult, out: &mut Part
         return;
     }
     let compaction = h.recorder.purges > 0 || h.recorder.snapshots_installed > 0;
-    let ctx = |node: Option<u64>| -> String {
-        let restarted = node.map(|n| h.restarted_nodes.contains(&n)).unwrap_or(!h.restarted_nodes.is_empty());
-        format!("{}/{}/{}", kind.name(), if restarted { "restarted-node" } else { "no-restart" }, if compaction { "with-compaction" } else { "no-compaction" })
+    // signature context: store kind x (some node was stopped and restarted in this history) x (some
+    // node purged its log / installed a snapshot) — a state lost at a restart also reaches nodes that
+    // never restarted, through the snapshots the restarted node sends as a leader
+    let ctx = |_node: Option<u64>| -> String {
+        format!("{}/{}/{}", kind.name(), if h.restarted_nodes.is_empty() { "no-restart" } else { "with-restart" }, if compaction { "with-compaction" } else { "no-compaction" })
     };
     let history_json = || -> J {
         json!({
@@ -1113,10 +1137,16 @@ fn check_history(kind: Kind, profile: Profile, h: &HistoryResult, out: &mut Part
     let leader_changes = h.leader_terms.len().saturating_sub(1);
     out.add("leader_terms_seen", h.leader_terms.len() as u64);
     match &h.barrier {
+        Err(_) if h.dead.len() >= 2 => {
+            // two of the three coordinators crashed by themselves and MemStore nodes cannot come
+            // back: no majority is left, so the bounded-progress premise does not apply. The
+            // agreement checks above still ran; the durability check needs the barrier.
+            out.add("histories_without_barrier_because_two_raft_cores_ended_by_themselves", 1);
+        }
         Err(e) => {
             out.add("histories_without_barrier", 1);
             out.inconclusive(&format!("{}/{}: no progress after the faults stopped: {e}; fatal: {:?}; metrics: {:?}", kind.name(), profile.name(), h.fatal, h.final_metrics));
-            if std::env::var("C37_DEBUG").is_ok() {
+            if debug_on() {
                 eprintln!("---- no barrier: {e}\n{:#?}\n{}\nTRACE\n{}", h.final_metrics, h.events.iter().map(|e| e.to_string()).collect::<Vec<_>>().join("\n"), h.trace.join("\n"));
             }
         }
@@ -1159,7 +1189,7 @@ fn check_history(kind: Kind, profile: Profile, h: &HistoryResult, out: &mut Part
 
 fn main() {
     let args = Args::parse();
-    if std::env::var("C37_DEBUG").is_err() {
+    if !debug_on() {
         install_quiet_panic_hook();
     }
     watchdog("C37", args.pick(600, 5400));
